@@ -7,6 +7,7 @@ unchanged), and run all 20 checks on it.  Every non-zero result is a defect of t
 of a role).   usage: rename_fuzz.py [--jobs N] [names...]"""
 import argparse, ast, os, re, shutil, subprocess, sys, tempfile
 from concurrent.futures import ThreadPoolExecutor
+os.environ.setdefault("UBCHECK_EVAL_PROCS", "2")
 
 SRC = "/repo/src/uberjob"
 ap = argparse.ArgumentParser()
